@@ -3,7 +3,7 @@ import PysnarkModel.Driver.Proto
 /-!
 # Line protocol for two-dimensional array histories (C15)
 
-`A2|id|cfg|sec=0/1;init=1,2,3/4,5,6|ev;ev;…` with the events of `Model/Array2D.lean` (`harness/a2enc.py` renders the
+`A2|id|cfg|sec=0/1;init=1,2,3/4,5,6|ev;ev;…` (`init=-`: no rows; a row `e`: no elements; `cfg` carries `ign=0/1`) with the events of `Model/Array2D.lean` (`harness/a2enc.py` renders the
 histories that `harness/props/c15.py gen_2d` sends to `harness/worker_array2d.py` in this form).  Reply:
 `id|status|at|T=[matrix after every completed event]|V=name:value,…|<state as Proto.stStr>`; on an error the state
 is the one before the failing event.  Not part of the verified model.
@@ -17,6 +17,10 @@ def ix? (t : String) : Option Ix :=
   | ["s", v] => v.toInt?.map .s
   | ["n", v] => v.toNat?.map .n
   | _ => none
+
+/-- a comma-separated list of integers; `e` is the empty list (an `Array([])`: every index is outside it) -/
+def ints? (t : String) : Option (List Int) :=
+  if t == "e" then some [] else (t.splitOn ",").mapM String.toInt?
 
 def ev? (t : String) : Option Ev :=
   match (t.splitOn " ").filter (· ≠ "") with
@@ -32,7 +36,7 @@ def ev? (t : String) : Option Ev :=
   | ["set2", r, c, x] => do pure (.set2 (← ix? r) (← ix? c) (← x.toInt?))
   | ["setrow", r, v] => do pure (.setrow (← ix? r) (← v.toNat?))
   | ["gather", rs] => do pure (.gather (← (rs.splitOn ",").mapM ix?))
-  | ["newrow", v, xs] => do pure (.newrow (← v.toNat?) (← (xs.splitOn ",").mapM String.toInt?))
+  | ["newrow", v, xs] => do pure (.newrow (← v.toNat?) (← ints? xs))
   | _ => none
 
 def init? (t : String) : Option (Bool × List (List Int)) :=
@@ -40,7 +44,8 @@ def init? (t : String) : Option (Bool × List (List Int)) :=
   | [s, m] =>
     match s.splitOn "=", m.splitOn "=" with
     | ["sec", b], ["init", rows] => do
-      let rs ← (rows.splitOn "/").mapM fun r => (r.splitOn ",").mapM String.toInt?
+      -- `-` is the matrix without rows, `e` a row without elements
+      let rs ← (if rows == "-" then some [] else (rows.splitOn "/").mapM ints?)
       pure ((← b.toNat?) != 0, rs)
     | _, _ => none
   | _ => none
